@@ -140,6 +140,13 @@ func near(a, b float64) bool { return math.Abs(a-b) <= 1e-6 }
 // checkState evaluates C11 (aggregates) and C01 (valuation = fresh model with that set) on a state.
 func (w *walker) checkState(after string, s *Snap) {
 	w.count++
+	// C02/C09: the solution encoding of a settled state is the encoding of its action states
+	if len(s.flags) > 0 {
+		if want := encodingOf(s.flags); s.comp != want {
+			w.fail("C02:encoding-is-of-the-action-states", "catchment:solution-encoding-stale",
+				fmt.Sprintf("after %s: the model's solution encoding is %q but its action states %s encode to %q", after, s.comp, s.enc, want))
+		}
+	}
 	for i := range varNames {
 		sum := 0.0
 		for _, p := range w.cm.pus {
@@ -211,6 +218,9 @@ func (w *walker) checkState(after string, s *Snap) {
 func snapsEqualObservables(a, b *Snap, pus []planningunit.Id) string {
 	if a.enc != b.enc {
 		return "action states/encoding differ: " + a.enc + " vs " + b.enc
+	}
+	if a.comp != b.comp {
+		return "solution encoding (ModelCompressor) differs: " + a.comp + " vs " + b.comp + " (action states " + a.enc + ")"
 	}
 	for i := range varNames {
 		if a.totals[i] != b.totals[i] {
